@@ -33,6 +33,7 @@ type World struct {
 	byObj    map[*types.Func]*FuncInfo
 	ordMu    sync.Mutex
 	patOnce  sync.Once
+	fcx      *frameChecker // frame summaries, shared by the frame obligations and by havocCall
 	patSpecNames map[string]bool
 	loopOrds map[*ast.FuncDecl]map[token.Pos]string
 	cs       *ContractSet
